@@ -150,6 +150,10 @@ class TArr:
             return self.scaled(float(other))
         if op == "Div" and isinstance(other, (int, float)) and not reflected:
             return self.scaled(1.0 / float(other))
+        # integer index arithmetic (frame numbers / times of text formats):  k * arange(n) + c  as a derived field
+        if op in ("Mult", "Add") and (core.is_sym(other) or isinstance(other, (int, float))) and self.scale == 1.0:
+            tok = str(core.term(other)) if core.is_sym(other) else other
+            return TArr(("affine", op, self.base, self.idx, tok), shape=self.shape, dtype=self.dtype)
         raise Unsupported(f"array arithmetic {op}")
 
     def sym_compare(self, interp, op, other, reflected):
